@@ -62,6 +62,15 @@ PROPS = {
         "assumptions": ["tied matches are compared in canonical order (their relative order is C04's subject)"],
         "parts": [part("v2in", "TestVerif_C07", "embedding", 2400, 30000, shards=(12, 16))],
     },
+    "C08": {
+        "rule": "differential: MatchFrom over generated read schedules vs Match on the same bytes vs Match on space-padded bytes (bit-identical Results), fault injection at drawn and at every offset (error returned, zero Results), exhaustive pad / fault / chunk sweeps on multi-byte-dense inputs",
+        "assumptions": ["a failing reader keeps failing (sticky error), as io.Reader implementations do"],
+        "parts": [
+            part("v2in", "TestVerif_C08_Fragmentation", "fragmentation", 1200, 16000, shards=(8, 16)),
+            part("v2in", "TestVerif_C08_Faults", "faults", 1600, 24000, shards=(4, 16)),
+            part("v2in", "TestVerif_C08_Sweeps", "sweeps", 0, 0, shards=(8, 16), enum=True),
+        ],
+    },
     "C20": {
         "rule": "rapid-generated operation sequences interpreted against reference models (map / list) with the invariant "
                 "checked after every step, plus exhaustive small-scope enumerations; non-trivial and distinct are defined per part (see parts)",
@@ -116,6 +125,11 @@ MANIFEST_TEXT = {
         "level": "Metamorphic property testing: thousands of (X, prefix, suffix) triples; Match(P+X+S) must equal Match(X) shifted, for exact, noisy, truncated and multi-license X; the premise is verified at token level so no case relies on hopeful construction. Bounded exploration.",
         "note": _V2NOTE,
         "technique": "metamorphic property-based testing (rapid)",
+    },
+    "C08": {
+        "level": "Differential testing with generated reader schedules, pads and injected faults, plus exhaustive sweeps (every pad 0..2056, every failure offset, chunk sizes around the 1024-byte buffer) on inputs with multi-byte runes every few bytes. Bounded exploration; exhaustive within the swept inputs.",
+        "note": _V2NOTE,
+        "technique": "differential property-based testing (rapid) + fault injection + exhaustive parameter sweeps",
     },
     "C20": {
         "level": "Model-based property testing: thousands of generated operation sequences per container are interpreted against reference models (map / list) with the full invariant checked after every step, plus exhaustive enumeration of all subset pairs x binary operations and of all short action sequences. Bounded exploration, not proof; exhaustive within the enumerated scopes.",
